@@ -608,10 +608,8 @@ Qed.
 
 Lemma open_child_reported s c x :
   nth_error s c = Some x -> life x = Closing -> has_open_child s c = true ->
-  (parent x <> None \/ blockexc x = false) ->
   exists ran, snd (step s (At c AExitEnd)) = Exited ran true.
 Proof.
-  intros Hc L Ch Hp. simpl. rewrite Hc. unfold local_step. simpl. rewrite L. simpl.
-  rewrite ?Hc, Ch. exists (rev (td x)). f_equal.
-  destruct (parent x) as [p|]; simpl; auto. destruct Hp as [Hp|Hp]; [congruence|now rewrite Hp].
+  intros Hc L Ch. simpl. rewrite Hc. unfold local_step. simpl. rewrite L. simpl.
+  rewrite ?Hc, Ch. exists (rev (td x)). reflexivity.
 Qed.
